@@ -244,6 +244,12 @@ func Main(args []string) int {
 		fmt.Sscan(args[2], &d)
 		fmt.Print(C06Once(p, d))
 		return 0
+	case "c06gen":
+		var p, n int
+		fmt.Sscan(args[1], &p)
+		fmt.Sscan(args[2], &n)
+		fmt.Print(C06Gen(p, n))
+		return 0
 	case "c09once":
 		var p, l int
 		fmt.Sscan(args[1], &p)
